@@ -195,7 +195,37 @@ def eval_family(ctx, case):
             return Verdict.violated("re-run %d over its own output is not a fixpoint: exit %s, changed/added paths %s" % (rerun + 1, r.exit, sorted(diff)[:6]),
                                     dict(r.brief(800), config=case["files"][".mockery.yml"]), tags)
     ctx.count("reruns", 3)
-    return Verdict.held(obs, tags=tags + ["idempotent"])
+    # history: the tree holds an older, longer generation of every output (the current output followed by more declarations)
+    outs = [rel for rel in base if rel.endswith(".go") and rel not in case["files"]]
+    for variant, tail in (("longer", b"\n// left over from an older, longer generation\nvar _ = 0\n"), ("shorter", None)):
+        for rel in outs:
+            pth = os.path.join(root, rel)
+            data = open(pth, "rb").read()
+            if tail is not None:
+                data = data + tail
+            else:
+                cut = data.rfind(b"\nfunc ")   # drop the last function: an older, shorter generation that still parses up to there
+                data = data[:cut + 1] if cut > 0 else data[: len(data) // 2]
+            open(pth, "wb").write(data)
+        r = core.run_mockery(ctx, root, [], timeout=600)
+        if r.timed_out:
+            return Verdict.inconclusive("watchdog")
+        if r.panicked:
+            return Verdict.violated("mockery crashed on a tree holding an older generation", r.brief(), tags)
+        snap = core.snapshot(root)
+        if r.exit != 0 and variant == "shorter":
+            # a truncated older file inside the source package can make the package unloadable: not a history this check can assert on
+            ctx.count("history_shorter_unloadable")
+            reset_to = base
+            for rel in outs:
+                shutil.copyfile(os.path.join(pristine, rel), os.path.join(root, rel)) if os.path.exists(os.path.join(pristine, rel)) else None
+            break
+        if r.exit != 0 or core.tree_hash(snap) != core.tree_hash(base):
+            diff = core.snap_diff(base, snap)
+            return Verdict.violated("run over a tree holding an older, %s generation of its outputs does not reproduce the fresh output: exit %s, differing paths %s" % (
+                variant, r.exit, sorted(diff)[:6]), dict(r.brief(800), config=case["files"][".mockery.yml"]), tags)
+        ctx.count("history_runs")
+    return Verdict.held(obs, tags=tags + ["idempotent", "history-independent"])
 
 
 def body(ctx, replay=None):
